@@ -22,7 +22,7 @@ MANIFEST = {
 RULE = ("per case one generated XGo package (main file with 1-3 functions, 0-2 methods, optional .gox class file with 1-2 methods, top-level statements; each body 2-6 random "
         "statements of 33 kinds nested to depth 2, with comments / blank lines / block comments between statements), compiled with file-line ON, 2/3 with parser.ParseComments "
         "(as the xgo tool) and 1/3 without (x/build); every probe is the first call of its statement; + per program 3 posfor cases (the Go file as is and 2 copies "
-        "with 45% of the directives rewritten into 28 other, mostly malformed, shapes) + 5 hand-written directive corner cases; the first 6 (thorough 120) programs are built and run; "
+        "with 45% of the directives rewritten into 28 other, mostly malformed, shapes) + 5 hand-written directive corner cases; the first 6 (thorough 60) programs are built and run; "
         "non-trivial = distinct generated Go file with >= 1 directive")
 
 
@@ -31,4 +31,4 @@ def run(ctx):
         "go/scanner + go/token are taken as the reference reading of //line directives for tie (i); cmd/compile's reading is exercised only through the built programs",
         "programs are built with -gcflags=-l (no inlining in the generated main package) so that runtime.FuncForPC names the function a probe is written in",
     ]
-    common.standard(ctx, "GopModel.Props.C09", "c09", 36, 1200, RULE, driver="drv_compb")
+    common.standard(ctx, "GopModel.Props.C09", "c09", 30, 400, RULE, driver="drv_compb")
